@@ -75,6 +75,13 @@ def stmt(r, d, labels):
 
 def generate(r):
     out = [PRE]
+    if r.random() < 0.25:
+        # definitions with unnamed (C23) parameters of aggregate type, called later in the same unit;
+        # the aggregate types have not been mentioned by any earlier function
+        ps = r.sample(['struct S', 'union U', 'int', 'double', 'struct S *', 'enum E', 'char'], r.randrange(1, 4))
+        out.append('%s fu(%s) { %s }' % (r.choice(['int', 'void', 'struct S']), ', '.join(ps), r.choice(['', 'return 0;', 'return gS;'])))
+        args = {'struct S': 'gS', 'union U': 'gU', 'int': '1', 'double': '2.0', 'struct S *': '&gS', 'enum E': 'E1', 'char': "'c'"}
+        out.append('void fcall(void) { fu(%s); }' % ', '.join(args[p] for p in ps))
     for f in range(r.randrange(1, 4)):
         labels = ['L%d' % i for i in range(r.randrange(1, 4))]
         rt = r.choice(['int', 'void', 'long', 'double', 'struct S', 'char', '_Bool', 'float', 'int *', 'unsigned long'])
